@@ -39,4 +39,10 @@ def run(prog, rep, tier):
     import r_core
     apply(rep, "P2b", "after every push/pop/drop the type profile that `?word`/`!word` dispatch on equals the types of the top values (stack class interpreted): `let`, `[ ]` and sub-expressions hand back a stack that dispatches like the one they were given", r_core.p2b(prog, tier), 2)
     apply(rep, "A8", "a predicate that reports an error answers fail", r_pred.a8(prog), 4)
+    import r_stream as _rs
+    e9 = _rs.e9(prog, tier)
+    if getattr(e9, "broken", None):
+        apply(rep, "E9", "assertions, sub-expressions, captures and if-else leave the incoming stack as documented (engine interpreted against the reference semantics)", e9, 1)
+    else:
+        apply(rep, "E9", "assertions, sub-expressions, captures and if-else leave the incoming stack as documented (engine interpreted against the reference semantics)", ([i for i in e9[0] if i[0] in ('E9:assert', 'E9:subx', 'E9:capture', 'E9:ifelse', 'E9:nested')], [f for f in e9[1] if f["key"] in ('E9:assert', 'E9:subx', 'E9:capture', 'E9:ifelse', 'E9:nested')]), 5)
     maybe_mutants("C04", rep, tier)
